@@ -55,5 +55,5 @@ mkdir -p "$out"
 mv "$out/crsim.test.tmp" "$out/crsim.test"
 echo "$repo_hash" > "$out/repo_hash"
 # keep the cache small: drop all but the 6 most recent builds
-ls -1dt "$CACHE"/build/*/ 2>/dev/null | tail -n +13 | xargs -r rm -rf
+ls -1dt "$CACHE"/build/*/ 2>/dev/null | tail -n +25 | xargs -r rm -rf
 echo "$out/crsim.test"
